@@ -580,7 +580,9 @@ static void doSolve(Session &S, unsigned long k)
     if (hadTop && hasTop)
         cmp = newTop < oldTop ? "better" : (oldTop < newTop ? "worse" : "same");
     std::ostringstream o;
-    o << "solve st=" << (exc.empty() ? vp::statusName(st) : ("EXC:" + exc)) << " nsol=" << sols.size()
+    // planning.h's statusName() predates PlannerStatus::INFEASIBLE
+    std::string stName = static_cast<ob::PlannerStatus::StatusType>(st) == ob::PlannerStatus::INFEASIBLE ? "INFEASIBLE" : vp::statusName(st);
+    o << "solve st=" << (exc.empty() ? stName : ("EXC:" + exc)) << " nsol=" << sols.size()
       << " added=" << (long)sols.size() - (long)before << " has=" << S.pdef->hasSolution()
       << " exact=" << S.pdef->hasExactSolution() << " approx=" << S.pdef->hasApproximateSolution()
       << " top=" << (hasTop ? describeTop(newTop) : std::string("-")) << " cmp=" << cmp << " fired=" << fired
